@@ -280,6 +280,7 @@ pub fn observe(c: &Case) -> Result<Obs, String> {
               queued_then_started = true
             }
           }
+          K::Mark(..) => {}
           _ => last_was_inner_terminal = false,
         }
       }
